@@ -4,10 +4,13 @@ package main
 
 import (
 	"fmt"
+	"go/ast"
+	"go/token"
 	"go/types"
 	"os"
 	"path/filepath"
 	"sort"
+	"strconv"
 	"strings"
 	"sync"
 
@@ -17,19 +20,20 @@ import (
 )
 
 type Engine struct {
-	mu        sync.Mutex
-	prog      *ssa.Program
-	pkgs      []*packages.Package
-	ssaPkgs   map[string]*ssa.Package
-	db        *SpecDB
-	tags      map[string]int
-	tagNames  map[int]string
-	fnIndex   map[string]*ssa.Function
-	implCache map[string][]types.Type
-	boxedTo   map[string][]types.Type // concrete type -> interface types it is converted to somewhere in the repository
-	assertedI map[string]bool         // interface types that are the target of a type assertion / type switch
-	named     []*types.Named
-	loadSecs  float64
+	globalConst map[string]string // never-reassigned string-table globals: "pkg.Var.Field" -> SMT string literal
+	mu          sync.Mutex
+	prog        *ssa.Program
+	pkgs        []*packages.Package
+	ssaPkgs     map[string]*ssa.Package
+	db          *SpecDB
+	tags        map[string]int
+	tagNames    map[int]string
+	fnIndex     map[string]*ssa.Function
+	implCache   map[string][]types.Type
+	boxedTo     map[string][]types.Type // concrete type -> interface types it is converted to somewhere in the repository
+	assertedI   map[string]bool         // interface types that are the target of a type assertion / type switch
+	named       []*types.Named
+	loadSecs    float64
 }
 
 const repoPrefix = "github.com/orda-io/orda/"
@@ -94,7 +98,89 @@ func loadEngine(moduleDir string, patterns []string, overlay map[string][]byte, 
 	}
 	sort.Slice(e.named, func(i, j int) bool { return shortTypeFull(e.named[i]) < shortTypeFull(e.named[j]) })
 	e.scanBoxing()
+	e.scanGlobalConsts()
 	return e, nil
+}
+
+// scanGlobalConsts finds package-level struct variables of the repository that are initialised by a composite
+// literal of string literals and never stored to afterwards (field-name tables such as schema.DatatypeDocFields):
+// their fields read as constants. Key: "<pkgpath>.<Var>.<Field>".
+func (e *Engine) scanGlobalConsts() {
+	e.globalConst = map[string]string{}
+	stored := map[*ssa.Global]bool{}
+	for fn := range ssautil.AllFunctions(e.prog) {
+		if fn.Synthetic == "package initializer" {
+			continue // the initialisation itself
+		}
+		for _, b := range fn.Blocks {
+			for _, ins := range b.Instrs {
+				st, ok := ins.(*ssa.Store)
+				if !ok {
+					continue
+				}
+				var root func(v ssa.Value) *ssa.Global
+				root = func(v ssa.Value) *ssa.Global {
+					switch a := v.(type) {
+					case *ssa.Global:
+						return a
+					case *ssa.FieldAddr:
+						return root(a.X)
+					case *ssa.IndexAddr:
+						return root(a.X)
+					}
+					return nil
+				}
+				if g := root(st.Addr); g != nil {
+					stored[g] = true
+				}
+			}
+		}
+	}
+	packages.Visit(e.pkgs, nil, func(p *packages.Package) {
+		if !strings.HasPrefix(p.PkgPath, repoPrefix) {
+			return
+		}
+		sp := e.ssaPkgs[p.PkgPath]
+		if sp == nil {
+			return
+		}
+		for _, f := range p.Syntax {
+			for _, d := range f.Decls {
+				gd, ok := d.(*ast.GenDecl)
+				if !ok || gd.Tok != token.VAR {
+					continue
+				}
+				for _, spec := range gd.Specs {
+					vs, ok := spec.(*ast.ValueSpec)
+					if !ok || len(vs.Names) != 1 || len(vs.Values) != 1 {
+						continue
+					}
+					cl, ok := vs.Values[0].(*ast.CompositeLit)
+					if !ok {
+						continue
+					}
+					g, _ := sp.Members[vs.Names[0].Name].(*ssa.Global)
+					if g == nil || stored[g] {
+						continue
+					}
+					for _, el := range cl.Elts {
+						kv, ok := el.(*ast.KeyValueExpr)
+						if !ok {
+							continue
+						}
+						k, ok1 := kv.Key.(*ast.Ident)
+						lit, ok2 := kv.Value.(*ast.BasicLit)
+						if !ok1 || !ok2 || lit.Kind != token.STRING {
+							continue
+						}
+						if sv, err := strconv.Unquote(lit.Value); err == nil {
+							e.globalConst[p.PkgPath+"."+vs.Names[0].Name+"."+k.Name] = smtStringLit(sv)
+						}
+					}
+				}
+			}
+		}
+	})
 }
 
 func (e *Engine) indexFn(f *ssa.Function) {
@@ -206,9 +292,11 @@ type Oblig struct {
 	Script  string
 	Note    string
 	Before  *Oblig // cover:after-call: the matching cover taken just before the call
+	Retried int    // >0: discharged only in a retry round (timeout multiplier of that round)
 }
 
 type VC struct {
+	dtZero       map[string]string // datatype sort -> zero term
 	eng          *Engine
 	fn           *ssa.Function
 	c            *Contract
@@ -228,7 +316,7 @@ type VC struct {
 	callsBy      map[string]bool
 	oblNames     map[string]int
 	entry        *State
-	axiomLine map[string]bool
+	axiomLine    map[string]bool
 	lemmasUse    map[string]bool
 	curPos       string
 	ghostEvt     map[string]int
